@@ -64,6 +64,8 @@ struct BsWorld {
     progress: Vec<usize>,
     alt_done: Vec<bool>,
     redelivered: Vec<bool>,
+    /// one shred of the same block arrived through the repair path (an unfinished repair)
+    repair_shred_done: bool,
     first_shreds: usize,
     blocks: usize,
     invalids: usize,
@@ -90,6 +92,7 @@ impl Sys for BsSys {
             progress: vec![0; self.n_slices()],
             alt_done: vec![false; self.shape.alts.len()],
             redelivered: vec![false; self.n_slices()],
+            repair_shred_done: false,
             first_shreds: 0,
             blocks: 0,
             invalids: 0,
@@ -99,7 +102,7 @@ impl Sys for BsSys {
     }
 
     fn num_actions(&self) -> usize {
-        2 * self.n_slices() + self.shape.alts.len()
+        2 * self.n_slices() + self.shape.alts.len() + 1
     }
 
     fn enabled(&self, w: &BsWorld, _h: &[u16], a: u16) -> bool {
@@ -110,8 +113,11 @@ impl Sys for BsSys {
         } else if a < 2 * n {
             let j = a - n;
             w.progress[j] > 0 && !w.redelivered[j]
-        } else {
+        } else if a < 2 * n + self.shape.alts.len() {
             !w.alt_done[a - 2 * n]
+        } else {
+            // only for well-formed blocks (repair is requested for certified blocks)
+            !w.repair_shred_done && self.shape.expect == Expect::Clean
         }
     }
 
@@ -146,6 +152,16 @@ impl Sys for BsSys {
             }
             events.extend(ev);
             what = format!("re-deliver last shred of slice {j}");
+        } else if a >= 2 * n + sh.alts.len() {
+            // an unfinished repair of the very same block: one genuine shred stored under its hash
+            w.repair_shred_done = true;
+            let s = sh.block.shreds[n - 1][37].clone();
+            let (r, ev) = w.bs.add_repair(sh.block.hash.clone(), s);
+            let _ = r;
+            // the repair path keeps its own per-hash data and makes its own announcements (a
+            // FirstShred for its first shred); C13 counts the dissemination path's announcements
+            events.extend(ev.into_iter().filter(|e| !matches!(e, Ev::Block(..) | Ev::FirstShred(_))));
+            what = "one shred of the same block through the repair path".to_string();
         } else {
             let k = a - 2 * n;
             w.alt_done[k] = true;
@@ -216,6 +232,9 @@ impl Sys for BsSys {
                         }
                     }
                     self.check_served(w, &mut out, &replay_ctx);
+                } else if now_complete && a >= 2 * n + sh.alts.len() {
+                    // a repair shred arriving after completion must not hide the block either
+                    self.check_served(w, &mut out, &replay_ctx);
                 }
             }
             (Expect::Clean, true) => {
@@ -254,6 +273,7 @@ impl Sys for BsSys {
         w.progress.hash(&mut h);
         w.alt_done.hash(&mut h);
         w.redelivered.hash(&mut h);
+        w.repair_shred_done.hash(&mut h);
         (w.first_shreds, w.blocks, w.invalids).hash(&mut h);
         // observable blockstore state
         let id: BlockId = (Slot::new(SLOT), self.shape.block.hash.clone());
@@ -272,8 +292,10 @@ impl Sys for BsSys {
             format!("deliver next stage of slice {a}")
         } else if a < 2 * n {
             format!("re-deliver last shred of slice {}", a - n)
-        } else {
+        } else if a < 2 * n + self.shape.alts.len() {
             format!("deliver alternative signed shred: {}", self.shape.alts[a - 2 * n].2)
+        } else {
+            "one shred of the same block arrives through the repair path".to_string()
         }
     }
 
